@@ -41,7 +41,7 @@ def build_btcdeb(wd):
     objs = []
     def one(s):
         o = os.path.join(wd, 'tool_' + s.replace('/', '_') + '.o')
-        if s.endswith('.c'): cmd = ['gcc', '-std=gnu99', '-O1', '-w', '-I' + build.REPO, '-I' + build.REPO + '/kerl', '-c', os.path.join(build.REPO, s), '-o', o]
+        if s.endswith('.c'): cmd = ['gcc', '-std=gnu99', '-O1', '-w', '-DHAVE_CONFIG_H', '-I' + build.REPO, '-I' + build.REPO + '/config', '-I' + build.REPO + '/kerl', '-c', os.path.join(build.REPO, s), '-o', o]
         else: cmd = ['g++', '-std=c++17', '-O1', '-w', '-I' + build.REPO, '-I' + build.REPO + '/secp256k1/include', '-DHAVE_CONFIG_H', '-c', os.path.join(build.REPO, s), '-o', o]
         r = subprocess.run(cmd, stdout=subprocess.PIPE, stderr=subprocess.STDOUT, text=True)
         if r.returncode: raise build.BuildError(r.stdout[-2000:])
@@ -50,7 +50,7 @@ def build_btcdeb(wd):
     secp = os.path.join(wd, 'secp_pic.a')
     if not os.path.exists(secp): secp = build.secp_lib(wd)
     out = os.path.join(wd, 'btcdeb')
-    r = subprocess.run(['g++', '-o', out] + objs + [secp], stdout=subprocess.PIPE, stderr=subprocess.STDOUT, text=True)
+    r = subprocess.run(['g++', '-o', out] + objs + [secp, '-lreadline'], stdout=subprocess.PIPE, stderr=subprocess.STDOUT, text=True)
     if r.returncode: raise build.BuildError(r.stdout[-2000:])
     _BIN[wd] = out
     return out
